@@ -48,7 +48,7 @@ def plan(tier, seed):
 def run_shard(desc, ctx):
     for i in range(desc['triples']):
         run_case({'kind': 'triple', 'seed': [desc['seed'], desc['shard'], i]}, ctx)
-    if desc['shard'] < 3:
+    if desc['shard'] < 5:
         run_case({'kind': 'triple', 'seed': [desc['seed'], desc['shard'], 0], 'big': True}, ctx)
     for i in range(desc['models']):
         run_case({'kind': 'model', 'seed': [desc['seed'], desc['shard'], i, 6]}, ctx)
@@ -138,7 +138,7 @@ def _triple(case, ctx):
 def _big_triple(case, ctx, rng):
     # size: more spikes than any plausible internal batch (50000)
     from phylib.io.model import from_sparse
-    n, k, nchan = [50001, 70000, 100003][case['seed'][1] % 3], 3, 8
+    n, k, nchan = [50001, 70000, 100003, 50000, 100000][case['seed'][1] % 5], 3, 8       # also exact multiples of 50000
     data = rng.normal(size=(n, k)).astype(np.float32)
     data[data == 0] = 1
     cols = np.stack([rng.permutation(nchan)[:k] for _ in range(8)])[rng.integers(0, 8, size=n)].astype(np.int32)
